@@ -7,10 +7,12 @@ from .. import core
 class C01(Property):
     id = "C01"
     lean_module = "RosuModel.Props.C01Full"
-    theorem_modules = ['RosuModel.Props.C01', 'RosuModel.Props.C01Ieee', 'RosuModel.Props.C01IeeeWitness', 'RosuModel.Props.C01IeeeFuel']   # files whose top-level theorems are all audited
+    theorem_modules = ['RosuModel.Props.C01', 'RosuModel.Props.C01Ieee', 'RosuModel.Props.C01IeeeWitness', 'RosuModel.Props.C01IeeeFuel', 'RosuModel.Props.C01IeeeSurplus', 'RosuModel.Props.C01IeeeSurplusLoop',
+                       ('RosuModel.Lemmas.FloatDebt', 'Rosu.FDebt')]   # files whose top-level theorems are all audited
     namespace = "Rosu.C01"
     design_ref = "5.1"
-    required_theorems = ["ofBytes_no_fault", "decode_bytes_never_errs", "decode_err_only_from_reader", "nodes_bounded",
+    required_theorems = [
+        "natTotal_notNeg_of_debt", "encode_decoded_no_panic_float_debt_partial", "decoded_dist_nonneg_float_debt_partial", "two_debts_counterexample", "simplifyLoop_optLen", "catmullSimplify_single_span","ofBytes_no_fault", "decode_bytes_never_errs", "decode_err_only_from_reader", "nodes_bounded",
                          "unsafe_guard_nonzero", "suffix_guarded", "finalize_total_without_sliders",
                          # index safety of the curve code (Lemmas/CurveTotal.lean), every arithmetic / mode / fuel / well-formed buffers
                          "calculatePath_no_panic", "calculatePath_ok_or_fuel", "compute_no_panic", "new_no_panic",
@@ -48,6 +50,14 @@ class C01(Property):
                         "in the real crate: expected_dist = Some(-1e-6) on an osu!-mode Catmull slider whose first cumulative length is negative by rounding gives dist = -1e-6 and "
                         "Beatmap::encode_to_string panics in collect_samples (witness in the level text); outside this property's quantifier (maps obtained by decoding). "
                         "Fuel of the tick loop: C20.ticks_fuel_suffices (law-dependent). `String::from_utf8` cannot fail because the model's output is a `List Char`",
+        "encode_decoded_no_panic_float_debt_partial (osu!-mode Catmull sliders: the last hypothesis of encode totality, weakened)":
+            "sixth session, Props/C01IeeeSurplus.lean, C01IeeeSurplusLoop.lean, Lemmas/FloatDebt.lean (monotonicity of rounded addition only, no error bounds): the hypothesis CatmullSurplusOk (the Catmull surplus "
+            "optimized_len is not negative - false: C01IeeeWitness) is replaced by the strictly weaker CatmullDebtCovered: optimized_len >= -D for ONE segment length D of the computed path (then the running total "
+            "is never negative: natTotal_notNeg_of_debt, for every f32 path incl. NaN / infinite coordinates; cancel_geNeg_float: fl(fl(p) + D) >= 0 whenever p >= -D). simplifyLoop_optLen / catmullSimplify_optLen: "
+            "optimized_len is the left fold of the booked terms fl(L_k - D_k) with L_k >= 0 or NaN (simplifyTerms_len_notNeg) and D_k the chord of the kept point (simplifyTerms_geNeg), so a slider that books ONE "
+            "negative term is covered (catmullSimplify_single_span); kernel check on the witness slider `0,0,0,2,0,C|1:2,1` (debtCovered_witness) and the decoded file through encode (…_nonvacuous). NOT closed: (1) the chord "
+            "of a booking is not formally identified with a segment of the final path (joint de-duplication; distance(a,b) vs length(b-a)); (2) two or more negative terms - order and monotonicity alone provably cannot "
+            "close this (two_debts_counterexample: L = 0, D1 = 1, D2 = 1.5 * 2^-53 gives the total -2^-54), it needs an f32 triangle inequality up to rounding. No decoded file with a negative natural length was found",
         "memory safety of the three unsafe blocks / stack depth / allocation": "outside any model; the guards are theorems (unsafe_guard_nonzero, suffix_guarded, C06.clean_always for point_split's scratch)",
     }
     level_text = ("Lean 4 theorems over the whole decode model (reader, framing, nine decoders, finaliser, curve code) and the encoder model: decoding an in-memory buffer never "
